@@ -2,8 +2,14 @@
   BB.Props.C04TwoOutputs — C04 over BOTH byte strings.
 
   `two_outputs_corr`: a program (`GrowHyps`, no hand-written compressed instructions) that assembles both
-  without `-c` (result `r₀`) and with it (`r₁`).  There are the two decided ghost lists `A5`, `B6`
-  (`Corr`: Lemmas/TwoRunCorr) whose layouts after resolve_aligns (`alignImg … 0`) are the two outputs:
+  without `-c` (result `r₀`) and with it (`r₁`).  `lay₀ = layoutOf H false items`, `lay₁ = layoutOf H true items`
+  are the layouts the model computes (functions of the inputs, Props/C04).  The two ghost lists `A5`, `B6` are
+  the DECIDED lists of the two runs with the label markers kept: `strip A5 = lay₀.decided`,
+  `strip B6 = lay₁.decided` (the pipeline drops label items in resolve_labels, so the lists it holds have no
+  markers; `strip` removes them), `strip (alignImg A5 0) = lay₀.aligned`, `strip (alignImg B6 0) = lay₁.aligned`,
+  and `Land` turns `lay₀.aligned` / `lay₁.aligned` into the blobs whose bytes are `r₀.bytes` / `r₁.bytes` — so the
+  lists account for ALL output bytes.  They are related by `Corr` (Lemmas/TwoRunCorr) and their layouts after
+  resolve_aligns (`alignImg … 0`) are the two outputs:
   the label tables are the marker positions, and EVERY item `x` of the -c side, at its byte offset
   `q1 = sizeSum (alignImg P1 0)` of `r₁.bytes`, has its counterpart at the byte offset
   `q0 = sizeSum (alignImg P0 0)` of `r₀.bytes` (`PlacedAt`: resolved there against the returned tables,
@@ -15,7 +21,9 @@
       instruction with the immediate `labels[n] − own offset` of its own run — the same TARGET LABEL,
       not the same byte offset;
     * a 32-bit instruction of the plain run that a compression pass replaced (iii): label-free ⇒ the
-      plain word decodes to `i`, the -c halfword to a legal RVC `ci` with `execC ci s = exec i 2 s`;
+      plain word decodes to `i`, the -c halfword to a legal RVC `ci` with `execC ci s = exec i 2 s`
+      (for the `ie` item class — `Spec.exec` only advances the pc there and cannot tell ebreak / ecall /
+      fence apart — additionally `expand16 ci = i` and `i = ebreak`: the only rule is ebreak → c.ebreak);
       a branch / jal on `%offset n` ⇒ the plain word decodes to the instruction at distance
       `r₀.labels[n] − q0`, the -c halfword to a legal RVC `ci` with `execC ci s = exec i1 2 s`, `i1`
       the same instruction at distance `r₁.labels[n] − q1`;
@@ -23,11 +31,24 @@
       pair is placed at `q0`, `q0 + 4`; the `jal` word decodes to `jal rd` at distance
       `r₁.labels[n] − q1`, or its compressed form executes like it.
 
+  Hypotheses.  `GrowHyps` (Props/C20TwoRun): item sizes non-negative, aligns positive, program below 2 GiB,
+  `li` operands label-free, call/tail targets not constants, `%offset` parses to `.offset`.
+  `NoCompressedSource items`: no instruction ITEM of the source is already a compressed (`c.*`) instruction —
+  a hand-written `c.addi` is the same item in both runs and is covered by no clause of `ItemSem` except (i).
+  `LitOK` (for every environment, line, position): the evaluator hook maps the decimal numerals `0 … 31` to
+  themselves — needed because `c.slli/c.srli/c.srai` rebuild their shift amount as `Arithmetic(str(n))`; it
+  holds for the text front end (`C04.litOK_evalArith`, `C12.textHooks_hooks`).
+  `ItemSem` is silent on: label-dependent immediates other than `%offset` of a branch / jal (e.g. `%hi(L)`,
+  `L + 4`), label-dependent data (`dw L`), align padding (excluded: `x ≠ .align`), and the semantics of the far
+  pair against the near `jal`.
+
   Not stated: an execution-level simulation over whole programs (link registers hold addresses, which
   differ between the two layouts), and the semantics of the far pair against the near `jal` (the far
   `tail` clobbers x6).
 -/
 import BB.Lemmas.TwoOutputs
+import BB.Lemmas.SuccTwoRun2
+import BB.Lemmas.LayoutAnchor
 import BB.Props.C12Program
 namespace BB.Props.C04
 open BB BB.Spec BB.Lemmas
@@ -50,7 +71,7 @@ def ItemSem (H : Hooks) (r₀ r₁ : AsmResult) (names : List String) (a x : Ite
   (∀ line ins cf, a = .instr line ins → x = .instr line cf → cf.isCompressed = true → ins.isCompressed = false →
     ((∀ imm, ins.imm? = some imm → ImmLabelFree H r₁.constants imm) →
       ∃ w0 i w1 ci, d0 = leBytes 4 w0 ∧ decode32 w0 = some i ∧ d1 = leBytes 2 w1 ∧ decode16 w1 = some ci ∧
-        ci.legal = true ∧ ∀ s, execC ci s = exec i 2 s) ∧
+        ci.legal = true ∧ (∀ s, execC ci s = exec i 2 s) ∧ (∀ n, ins = .ie n → expand16 ci = i ∧ i = .ebreak)) ∧
     (∀ n t0, IsBJ ins → ins.imm? = some (.offset n) → n ∈ names → r₁.constants.get n = none →
       r₀.labels.get n = some t0 → Retarget32 ins (t0 - q0) d0 ∧ CompTransferSem r₁ ins n q1 d1))
 
@@ -180,7 +201,23 @@ theorem comp_transfer_sem {H : Hooks} {r₁ : AsmResult} {names : List String}
   subst hres
   exact ⟨w1, ci, i1, hw1, hdec, hlegal, hden, hexec⟩
 
-/-- a label-free instruction that the -c run compressed -/
+/-- the only compression of the `ie` item class (ebreak / ecall / fence): `ebreak` to `c.ebreak` -/
+theorem ie_decided {c : String} {preds : List Pred} (hmem : (c, preds) ∈ criteria) {ev : Imm → Option Int} {n : String}
+    {cf : Instr} (hp : ∀ pr ∈ preds, pr.holds (.ie n) ev) (hcf : compressedForm c (.ie n) = some cf) :
+    n = "ebreak" ∧ cf = .cre "c.ebreak" := by
+  simp only [compressedForm] at hcf
+  split at hcf
+  · rename_i hc
+    subst hc
+    simp only [Option.some.injEq] at hcf
+    simp [criteria] at hmem
+    subst hmem
+    have hn : n = "ebreak" := by simpa [Pred.holds, Instr.name] using hp
+    exact ⟨hn, hcf.symm⟩
+  · cases hcf
+
+/-- a label-free instruction that the -c run compressed; for the `ie` class — where `Spec.exec` only advances
+    the pc and cannot tell ebreak / ecall / fence apart — the RVC instruction EXPANDS to the original -/
 theorem comp_free_sem {H : Hooks} {r₀ r₁ : AsmResult} (hconst : r₀.constants = r₁.constants)
     (hlit : ∀ line p env, LitOK (evalAt H env line p))
     {line : Line} {ins cf : Instr} {c : String} {preds : List Pred} {p : Int} {L : Dict} {q0 q1 : Int} {d0 d1 : List Nat}
@@ -188,7 +225,7 @@ theorem comp_free_sem {H : Hooks} {r₀ r₁ : AsmResult} (hconst : r₀.constan
     (hfree : ∀ imm, ins.imm? = some imm → ImmLabelFree H r₁.constants imm)
     (h0 : PlacedAt H r₀ q0 (.instr line ins) d0) (h1 : PlacedAt H r₁ q1 (.instr line cf) d1) :
     ∃ w0 i w1 ci, d0 = leBytes 4 w0 ∧ decode32 w0 = some i ∧ d1 = leBytes 2 w1 ∧ decode16 w1 = some ci ∧
-      ci.legal = true ∧ ∀ s, execC ci s = exec i 2 s := by
+      ci.legal = true ∧ (∀ s, execC ci s = exec i 2 s) ∧ (∀ n, ins = .ie n → expand16 ci = i ∧ i = .ebreak) := by
   obtain ⟨hnc, hnaj, hmem, hall, hcf⟩ := hd
   have hp0 := (allPreds_true_iff H _ line ins p preds).mp hall
   have hp := holds_labelfree hfree L r₁.labels line p q1 hp0
@@ -206,7 +243,18 @@ theorem comp_free_sem {H : Hooks} {r₀ r₁ : AsmResult} (hconst : r₀.constan
       rw [this]; exact hres0
   obtain ⟨rcf, ci, hr0, hd16, hlegal, hexec⟩ := rule_sound hmem (hlit _ _ _) hp hcf hres1 hden
   obtain ⟨w1, hw1, hdec1⟩ := placed_read16 (compressedForm_aj hcf) (compressedForm_sizes hcf).2 hr0 hd16 h1
-  exact ⟨w0, i, w1, ci, hd0, hdec0, hw1, hdec1, hlegal, hexec⟩
+  refine ⟨w0, i, w1, ci, hd0, hdec0, hw1, hdec1, hlegal, hexec, ?_⟩
+  intro n e
+  subst e
+  obtain ⟨rfl, rfl⟩ := ie_decided hmem hp hcf
+  simp only [resolveWith, Instr.imm?, Option.some.injEq] at hres1 hr0
+  subst hres1 hr0
+  rw [b_ebreak] at hden
+  cases hden
+  have : denote16I (.cre "c.ebreak") = some .ebreak := by decide
+  rw [this] at hd16
+  cases hd16
+  exact ⟨rfl, rfl⟩
 
 /-! ### the theorem -/
 
@@ -221,7 +269,15 @@ theorem two_outputs_corr (H : Hooks) (items : List Item) (r₀ r₁ : AsmResult)
     (hsrcc : NoCompressedSource items) (hlit : ∀ line p env, LitOK (evalAt H env line p))
     (h0 : assembleItems H false items [] [] = .ok r₀) (h1 : assembleItems H true items [] [] = .ok r₁) :
     r₀.constants = r₁.constants ∧
-    ∃ A5 B6 : List Item, Corr H r₁.constants A5 B6 ∧ labelNames B6 = labelNames items ∧
+    ∃ (lay₀ lay₁ : Layout) (out₀ out₁ A5 B6 : List Item),
+      layoutOf H false items = .ok lay₀ ∧ layoutOf H true items = .ok lay₁ ∧
+      lay₀.labels = r₀.labels ∧ lay₀.constants = r₀.constants ∧ lay₁.labels = r₁.labels ∧ lay₁.constants = r₁.constants ∧
+      Land H r₀.constants r₀.labels 0 lay₀.aligned out₀ ∧ r₀.bytes = blobBytes out₀ ∧
+      Land H r₁.constants r₁.labels 0 lay₁.aligned out₁ ∧ r₁.bytes = blobBytes out₁ ∧
+      strip A5 = lay₀.decided ∧ strip B6 = lay₁.decided ∧
+      strip (alignImg A5 0) = lay₀.aligned ∧ strip (alignImg B6 0) = lay₁.aligned ∧
+      labelNames A5 = labelNames items ∧
+      Corr H r₁.constants A5 B6 ∧ labelNames B6 = labelNames items ∧
       (∀ ℓ u, labelPos (alignImg A5 0) 0 ℓ = some u → r₀.labels.get ℓ = some u) ∧
       (∀ ℓ u, labelPos (alignImg B6 0) 0 ℓ = some u → r₁.labels.get ℓ = some u) ∧
       ∀ P1 x S1, B6 = P1 ++ x :: S1 → (∀ l n, x ≠ .label l n) → (∀ l a, x ≠ .align l a) →
@@ -236,10 +292,11 @@ theorem two_outputs_corr (H : Hooks) (items : List Item) (r₀ r₁ : AsmResult)
               PlacedAt H r₀ (sizeSum (alignImg P0 0)) (.instr line (.u "auipc" rA (.hi imm))) da ∧
               PlacedAt H r₀ (sizeSum (alignImg P0 0) + 4) (.instr line (.i "jalr" rd rA (.lo imm) true)) dj ∧
               NearSem r₁ (labelNames items) line rd imm x (sizeSum (alignImg P1 0)) d1)) := by
-  obtain ⟨i1a, i2a, a3, a4, a6, a7, out0, l2a, l3a, l4a, l6a, _, e1a, e2a, e3a, e4a, e6a, e7a, landa, bytesa⟩ :=
-    assemble_stages_all H false items r₀ h0
-  obtain ⟨i1b, i2b, b3, b4, b6, b7, out1, l2b, l3b, l4b, l6b, _, e1b, e2b, e3b, e4b, e6b, e7b, landb, bytesb⟩ :=
-    assemble_stages_all H true items r₁ h1
+  obtain ⟨i1a, i2a, a3, a4, a6, a7, out0, l2a, l3a, l4a, l6a, hlay0, _, e1a, e2a, e3a, e4a, e6a, e7a, landa, bytesa⟩ :=
+    assemble_anchor H false items r₀ h0
+  obtain ⟨i1b, i2b, b3, b4, b6, b7, out1, l2b, l3b, l4b, l6b, hlay1, _, e1b, e2b, e3b, e4b, e6b, e7b, landb, bytesb⟩ :=
+    assemble_anchor H true items r₁ h1
+  have landa0 := landa
   -- the common front
   have e1a' := e1a
   rw [e1b] at e1a'
@@ -253,12 +310,13 @@ theorem two_outputs_corr (H : Hooks) (items : List Item) (r₀ r₁ : AsmResult)
   obtain ⟨rfl, rfl⟩ := e3a
   obtain ⟨rfl, rfl⟩ := e6a
   refine ⟨hconst.symm, ?_⟩
-  obtain ⟨A4, B6, wa4, corr, sA, sB, nn0, nn1, nodup, hnames, agree0, agree1, hblocks⟩ :=
-    two_run_ghost H items hyp r₁.constants e1b e2a e4a e7a e3b e4b e6b e7b
+  obtain ⟨_, A4, _, B6, _, _, _, _, _, _, _, _, _, _, _, wa4, corr, sA, sB, nn0, nn1, nodup, hnames, agree0, agree1, hblocks,
+    sA5, sB6, namesA⟩ := two_run_ghost2 H items hyp r₁.constants e1b e2a e4a e7a e3b e4b e6b e7b
   subst sA sB
   obtain ⟨c1, _, c3⟩ := BB.Props.C03.resolveConstants_spec H items [] i1b r₁.constants e1b
   obtain ⟨l1, _, _, _, _⟩ := resolveLabelsAux_spec i1b 0 [] [] i2a l2a e2a
-  refine ⟨resolveRegisterAliases A4 r₁.constants, B6, corr, hnames, agree0, agree1, ?_⟩
+  refine ⟨_, _, out0, out1, resolveRegisterAliases A4 r₁.constants, B6, hlay0, hlay1, rfl, rfl, rfl, rfl, landa0, bytesa, landb,
+    bytesb, sA5, sB6, rfl, rfl, namesA, corr, hnames, agree0, agree1, ?_⟩
   -- placement in both outputs
   have landa' : Land H r₀.constants r₀.labels 0 (strip (alignImg (resolveRegisterAliases A4 r₁.constants) 0)) out0 := by
     rw [← hconst]; exact landa
@@ -348,6 +406,39 @@ theorem two_outputs_corr (H : Hooks) (items : List Item) (r₀ r₁ : AsmResult)
       | comp _ _ _ c preds p L d hfix =>
         exact comp_transfer_sem hlit d (Or.inr ⟨_, _, _, rfl⟩) rfl hn hc (horacle _ line cf _ himg1 hcc) hp1
 
+/-- the conclusion of `two_outputs_corr`, verbatim, as a predicate (used by the text-level corollary,
+    Props/TextCorollaries) -/
+def TwoOutputs (H : Hooks) (items : List Item) (r₀ r₁ : AsmResult) : Prop :=
+    r₀.constants = r₁.constants ∧
+    ∃ (lay₀ lay₁ : Layout) (out₀ out₁ A5 B6 : List Item),
+      layoutOf H false items = .ok lay₀ ∧ layoutOf H true items = .ok lay₁ ∧
+      lay₀.labels = r₀.labels ∧ lay₀.constants = r₀.constants ∧ lay₁.labels = r₁.labels ∧ lay₁.constants = r₁.constants ∧
+      Land H r₀.constants r₀.labels 0 lay₀.aligned out₀ ∧ r₀.bytes = blobBytes out₀ ∧
+      Land H r₁.constants r₁.labels 0 lay₁.aligned out₁ ∧ r₁.bytes = blobBytes out₁ ∧
+      strip A5 = lay₀.decided ∧ strip B6 = lay₁.decided ∧
+      strip (alignImg A5 0) = lay₀.aligned ∧ strip (alignImg B6 0) = lay₁.aligned ∧
+      labelNames A5 = labelNames items ∧
+      Corr H r₁.constants A5 B6 ∧ labelNames B6 = labelNames items ∧
+      (∀ ℓ u, labelPos (alignImg A5 0) 0 ℓ = some u → r₀.labels.get ℓ = some u) ∧
+      (∀ ℓ u, labelPos (alignImg B6 0) 0 ℓ = some u → r₁.labels.get ℓ = some u) ∧
+      ∀ P1 x S1, B6 = P1 ++ x :: S1 → (∀ l n, x ≠ .label l n) → (∀ l a, x ≠ .align l a) →
+        ∃ P0 S0 d1, Corr H r₁.constants P0 P1 ∧ Corr H r₁.constants S0 S1 ∧
+          PlacedAt H r₁ (sizeSum (alignImg P1 0)) x d1 ∧
+          ((∃ a d0, A5 = P0 ++ a :: S0 ∧ StepRel H r₁.constants a x ∧
+              PlacedAt H r₀ (sizeSum (alignImg P0 0)) a d0 ∧
+              ItemSem H r₀ r₁ (labelNames items) a x (sizeSum (alignImg P0 0)) (sizeSum (alignImg P1 0)) d0 d1) ∨
+           (∃ line rd rA imm da dj,
+              A5 = P0 ++ .instr line (.u "auipc" rA (.hi imm)) :: .instr line (.i "jalr" rd rA (.lo imm) true) :: S0 ∧
+              StepRel H r₁.constants (.instr line (.j "jal" rd imm)) x ∧
+              PlacedAt H r₀ (sizeSum (alignImg P0 0)) (.instr line (.u "auipc" rA (.hi imm))) da ∧
+              PlacedAt H r₀ (sizeSum (alignImg P0 0) + 4) (.instr line (.i "jalr" rd rA (.lo imm) true)) dj ∧
+              NearSem r₁ (labelNames items) line rd imm x (sizeSum (alignImg P1 0)) d1))
+
+theorem two_outputs_corr_pred (H : Hooks) (items : List Item) (r₀ r₁ : AsmResult) (hyp : GrowHyps H items)
+    (hsrcc : NoCompressedSource items) (hlit : ∀ line p env, LitOK (evalAt H env line p))
+    (h0 : assembleItems H false items [] [] = .ok r₀) (h1 : assembleItems H true items [] [] = .ok r₁) :
+    TwoOutputs H items r₀ r₁ := two_outputs_corr H items r₀ r₁ hyp hsrcc hlit h0 h1
+
 /-! ### non-vacuity -/
 
 open BB.Props.C12 (Hp progP progP_grow hp_litOK)
@@ -359,7 +450,7 @@ theorem progP_nocomp : NoCompressedSource progP := by
 
 /-- the theorem applies to `progP` (Props/C12Program): both runs succeed, 24 and 16 bytes -/
 example : ∃ A5 B6 : List Item, Corr Hp [] A5 B6 ∧ labelNames B6 = ["B", "F"] := by
-  obtain ⟨_, A5, B6, hc, hn, _⟩ := two_outputs_corr Hp progP _ _ progP_grow progP_nocomp hp_litOK
+  obtain ⟨_, _, _, _, _, A5, B6, _, _, _, _, _, _, _, _, _, _, _, _, _, _, _, hc, hn, _⟩ := two_outputs_corr Hp progP _ _ progP_grow progP_nocomp hp_litOK
     (by decide : assembleItems Hp false progP [] [] = .ok
       { bytes := [99, 10, 5, 0, 239, 0, 0, 1, 19, 5, 5, 254, 147, 197, 245, 255, 227, 24, 181, 254, 103, 128, 0, 0],
         labels := [("B", 0), ("F", 20)], constants := [] })
